@@ -128,6 +128,8 @@ def mismatches(sess, suite):
 def generate(sess):
     rng = sess.rng
     thorough = sess.tier != "quick"
+    for suite in TOY_SUITES + REAL_SUITES:
+        order_stream(sess, suite, 60 if thorough else 20)
     for suite in TOY_SUITES:
         for nsign in range(2, 6 if thorough else 5):
             n = nsign + rng.randrange(0, 2)
